@@ -5,5 +5,5 @@ From V Require Import Sem Prod.
 From V Require TrimDefs Lang.
 From V Require Import StoreDefs ReindexDefs ValueDefs.
 Extraction "ex_c11.ml" pempty vstep_run t_empty t_add t_setfinal t_erasefinals t_clear t_select t_union_disjoint
-  w_empty w_add w_setfinal w_setstart wapp t_obs_eq w_obs_eq t_union_gate t_image_gate w_union_gate w_image_gate app_map
+  w_empty w_add w_setfinal w_setstart wapp t_obs_eq w_obs_eq w_vis_eq wvisible t_union_gate t_image_gate w_union_gate w_image_gate app_map
   TrimDefs.remove_unreachable TrimDefs.remove_useless states wstates.
